@@ -7,6 +7,7 @@ import Std.Tactic.BVDecide
 import SuccinctlyVerif.Proof.KernelsBlock
 namespace SV.Kernels
 open SV SV.KList
+attribute [local simp] SV.Kernels.wordBits_length
 
 /-- Byte `i` of a word (little endian). -/
 def byteAt (x : BitVec 64) (i : Nat) : BitVec 8 := (x >>> (i * 8)).setWidth 8
